@@ -648,8 +648,13 @@ def processCommand (mode : Mode) (c : Nat) (fields : List Bytes) : M Unit := do
           emit c (.err (strBytes ("EXECABORT Transaction discarded because of: " ++ (sig.wrongArgs.drop 4))))
         else emit c (.err (strBytes sig.wrongArgs))
       else if conn.tx.isSome && !SigTable.notQueued.contains sig.name then
-        modifyConn c fun x => { x with tx := x.tx.map (· ++ [(sig.name, args)]) }
-        emit c .queued
+        if SigTable.notInMulti.contains sig.name then
+          -- (P)SUBSCRIBE / (P)UNSUBSCRIBE are refused at queue time; the transaction is poisoned
+          modifyConn c fun x => { x with txFailed := true }
+          emit c (.err (strBytes Msgs.COMMAND_IN_MULTI_MSG))
+        else
+          modifyConn c fun x => { x with tx := x.tx.map (· ++ [(sig.name, args)]) }
+          emit c .queued
       else
         match ← runCommand mode c sig args false with
         | some r => emit c r
